@@ -30,7 +30,8 @@ Record cinv (s : cst) : Prop := {
   i_closer_cur : forall k, c_closer s (c_file s) = Some k -> c_done s k = false;
   i_closer_sto : forall f k, c_closer s f = Some k -> exists j, c_storers s f j = true /\ j <> k;
   i_closed : forall f, f < c_nfiles s -> c_fopen s f = false -> exists k, c_closer s f = Some k;
-  i_holding : forall t f d0, c_thr s t = RHolding f d0 -> holding_ok s f d0
+  i_holding : forall t f d0, c_thr s t = RHolding f d0 -> holding_ok s f d0;
+  i_sto_flight : forall f j, c_storers s f j = true -> c_done s j = true \/ exists t now g, c_thr s t = RStoredOld j now g
 }.
 
 Lemma updf_same {A} (f : nat -> A) k v : updf f k v k = v.
@@ -62,10 +63,11 @@ Lemma cinv_set_thr s t p : cinv s ->
   (fresh_of p = None \/ fresh_of p = fresh_of (c_thr s t)) ->
   (forall id now f o, p = RLoadedFile id now f o -> c_thr s t = RLoadedFile id now f o) ->
   (forall k now, p = RWon k now -> c_thr s t = RWon k now) ->
+  (forall j now g, c_thr s t = RStoredOld j now g -> False) ->
   (forall f d0, p = RHolding f d0 -> holding_ok s f d0) ->
   cinv (set_thr s t p).
 Proof.
-  intros H Hr Hf Hl Hw Hh. destruct H.
+  intros H Hr Hf Hl Hw Hso Hh. destruct H.
   assert (Hrot : forall t' j, rot_of (updf (c_thr s) t p t') = Some j -> rot_of (c_thr s t') = Some j \/ (t' = t /\ rot_of (c_thr s t) = Some j)).
   { intros t' j. unfold updf. destruct (Nat.eqb_spec t' t); [subst|auto]. intro E. destruct Hr as [Hr|Hr]; [congruence|]. right. split; congruence. }
   assert (Hfr : forall t' f, fresh_of (updf (c_thr s) t p t') = Some f -> fresh_of (c_thr s t') = Some f \/ (t' = t /\ fresh_of (c_thr s t) = Some f)).
@@ -80,6 +82,8 @@ Proof.
   - intros t' id now f o. unfold updf. destruct (Nat.eqb_spec t' t); [subst; intro E; eauto|eauto].
   - intros j Hj t' k now. unfold updf. destruct (Nat.eqb_spec t' t); [subst; intro E; eauto|eauto].
   - intros t' f d0. unfold updf. destruct (Nat.eqb_spec t' t); [subst; intro E; unfold holding_ok in *; eauto|eauto].
+  - intros f j E. destruct (i_sto_flight0 _ _ E) as [Hd|(t' & nw & g & Et')]; [left; assumption|right].
+    exists t', nw, g. rewrite updf_other; [assumption|]. intro; subst t'. exact (Hso _ _ _ Et').
 Qed.
 
 Ltac proj := cbn [set_thr c_clk c_curr c_file c_old c_nfiles c_fname c_fopen c_fdata c_thr c_seq c_lost c_started c_done c_movers c_storers c_closer c_old_by].
@@ -114,6 +118,8 @@ Proof.
     + intro E. inversion E; subst. specialize (i_oldby_lt0 _ Hj). lia.
     + eauto.
   - intros t' f d0. unfold updf. destruct (Nat.eqb_spec t' t); [discriminate|]. intro E. exact (i_holding0 _ _ _ E).
+  - intros f0 j0 E0. destruct (i_sto_flight0 _ _ E0) as [Hd0|(t0' & nw0 & g0 & Et0')]; [left; assumption|right].
+    exists t0', nw0, g0. rewrite updf_other; [assumption|]. intro; subst t0'. rewrite Ht in Et0'. discriminate.
 Qed.
 
 Lemma cinv_swap_close s t id now o : cinv s -> c_thr s t = RWon id now -> c_old s = Some o ->
@@ -155,6 +161,8 @@ Proof.
     destruct (i_holding0 _ _ _ E) as (H1 & H2 & H3 & H4). repeat split; auto.
     intros k Ek. destruct (Hclo _ _ Ek) as [E'|[-> ->]]; [eauto|].
     destruct (d0 id) eqn:Ed; [|reflexivity]. specialize (H2 _ Ed). destruct Hid. congruence.
+  - intros f0 j0 E0. destruct (i_sto_flight0 _ _ E0) as [Hd0|(t0' & nw0 & g0 & Et0')]; [left; assumption|right].
+    exists t0', nw0, g0. rewrite updf_other; [assumption|]. intro; subst t0'. rewrite Ht in Et0'. discriminate.
 Qed.
 
 Lemma cinv_create s t id now : cinv s -> c_thr s t = RClosedOld id now ->
@@ -193,6 +201,8 @@ Proof.
   - intros f Hf. unfold updf at 1. destruct (Nat.eqb_spec f (c_nfiles s)); [discriminate|]. intro E. apply i_closed0; [lia|assumption].
   - intros t' f d0. unfold updf at 1. destruct (Nat.eqb_spec t' t); [discriminate|]. intro E.
     destruct (i_holding0 _ _ _ E) as (H1 & H2 & H3 & H4). unfold holding_ok; proj. split; [lia|]. repeat split; auto.
+  - intros f0 j0 E0. destruct (i_sto_flight0 _ _ E0) as [Hd0|(t0' & nw0 & g0 & Et0')]; [left; assumption|right].
+    exists t0', nw0, g0. rewrite updf_other; [assumption|]. intro; subst t0'. rewrite Ht in Et0'. discriminate.
 Qed.
 
 Lemma cinv_load_file s t id now f : cinv s -> c_thr s t = RCreated id now f ->
@@ -229,6 +239,8 @@ Proof.
     destruct (i_holding0 _ _ _ E) as (H1 & H2 & H3 & H4). repeat split; auto.
     intros j Em. apply updf2_true in Em as [[-> ->]|Em]; [|eauto].
     destruct (d0 id) eqn:Ed; [|reflexivity]. specialize (H2 _ Ed). destruct Hid. congruence.
+  - intros f0 j0 E0. destruct (i_sto_flight0 _ _ E0) as [Hd0|(t0' & nw0 & g0 & Et0')]; [left; assumption|right].
+    exists t0', nw0, g0. rewrite updf_other; [assumption|]. intro; subst t0'. rewrite Ht in Et0'. discriminate.
 Qed.
 
 Lemma cinv_store_old s t id now f o : cinv s -> c_thr s t = RLoadedFile id now f o ->
@@ -264,6 +276,10 @@ Proof.
   - intros o' E. inversion E; subst. exists id. split; [reflexivity|apply updf2_new].
   - intros g k E. destruct (i_closer_sto0 _ _ E) as (j & Hj & Hn). exists j. split; [apply updf2_mono; assumption|assumption].
   - intros t' g d0. unfold updf at 1. destruct (Nat.eqb_spec t' t); [discriminate|]. intro E. exact (i_holding0 _ _ _ E).
+  - intros f0 j0 E0. apply updf2_true in E0 as [[-> ->]|E0].
+    + right. exists t, now, f. apply updf_same.
+    + destruct (i_sto_flight0 _ _ E0) as [Hd0|(t0' & nw0 & g0 & Et0')]; [left; assumption|right].
+      exists t0', nw0, g0. rewrite updf_other; [assumption|]. intro; subst t0'. rewrite Ht in Et0'. discriminate.
 Qed.
 
 Lemma cinv_store_file s t id now f : cinv s -> c_thr s t = RStoredOld id now f ->
@@ -292,9 +308,14 @@ Proof.
   - intros t' g d0. unfold updf at 1. destruct (Nat.eqb_spec t' t); [discriminate|]. intro E.
     destruct (i_holding0 _ _ _ E) as (H1 & H2 & H3 & H4). unfold holding_ok; proj. repeat split; auto.
     intros j Ed. unfold updf. destruct (Nat.eqb_spec j id); [reflexivity|auto].
+  - intros f0 j0 E0. destruct (i_sto_flight0 _ _ E0) as [Hd0|(t0' & nw0 & g0 & Et0')].
+    + left. unfold updf. destruct (Nat.eqb_spec j0 id); [reflexivity|assumption].
+    + destruct (Nat.eq_dec t0' t) as [->|Hne].
+      * rewrite Ht in Et0'. inversion Et0'; subst. left. apply updf_same.
+      * right. exists t0', nw0, g0. rewrite updf_other; assumption.
 Qed.
 
-Ltac neutral_pc := first [ left; reflexivity | intros; discriminate ].
+Ltac neutral_pc := first [ left; reflexivity | intros; discriminate | intros; congruence ].
 
 Theorem cstep_cinv s s' : cstep s s' -> cinv s -> cinv s'.
 Proof.
@@ -308,6 +329,7 @@ Proof.
   - apply cinv_set_thr; [assumption| | neutral_pc..]. right. rewrite H0. reflexivity.
   - eapply cinv_swap_close; eassumption.
   - eapply cinv_create; eassumption.
+  - apply cinv_set_thr; [assumption|neutral_pc..].
   - eapply cinv_load_file; eassumption.
   - eapply cinv_store_old; eassumption.
   - eapply cinv_store_file; eassumption.
@@ -366,10 +388,52 @@ Proof.
   pose proof (i_closer_cur0 _ Hk) as Hd. destruct (i_clo_lt0 _ _ Hk) as [_ Hlt]. rewrite (Hq _ Hlt) in Hd. discriminate.
 Qed.
 
+(* the same with the two rotations named: j retired the descriptor into oldFile (so its createFile had succeeded), k closed it.
+   Under create faults (cs_create_fail) "overlaps" reads: started by the time of the write and not SUCCESSFULLY complete when the
+   descriptor was loaded - a rotation whose createFile failed never completes (fault_loses_write_with_one_rotation_in_flight). *)
+Theorem closed_under_writer_storer_and_closer t0 s t f d0 :
+  creach (c_start t0) s -> c_thr s t = RHolding f d0 -> c_fopen s f = false ->
+  exists j k, j <> k /\ c_storers s f j = true /\ c_closer s f = Some k /\ overlaps s d0 j /\ overlaps s d0 k.
+Proof.
+  intros Hr Ht Hc. pose proof (creach_cinv _ _ Hr) as H. destruct H.
+  destruct (i_holding0 _ _ _ Ht) as (H1 & H2 & H3 & H4).
+  destruct (i_closed0 _ H1 Hc) as (k & Hk).
+  destruct (i_closer_sto0 _ _ Hk) as (j & Hj & Hjk).
+  exists j, k. split; [assumption|]. split; [assumption|]. split; [assumption|]. split; split.
+  - apply (i_mov_lt0 f j). apply i_sto_mov0. assumption.
+  - apply H3. apply i_sto_mov0. assumption.
+  - apply (i_clo_lt0 f k Hk).
+  - apply H4. assumption.
+Qed.
+
+(* whatever failed before: while no goroutine is inside a rotation, the current descriptor is open - the appender has a file to write to *)
+Theorem current_open_when_no_rotation_in_flight t0 s :
+  creach (c_start t0) s -> (forall t, rot_of (c_thr s t) = None) -> c_fopen s (c_file s) = true.
+Proof.
+  intros Hr Hq. pose proof (creach_cinv _ _ Hr) as H. destruct H.
+  destruct (c_fopen s (c_file s)) eqn:E; [reflexivity|]. exfalso.
+  destruct (i_closed0 _ i_file_lt0 E) as (k & Hk).
+  destruct (i_closer_sto0 _ _ Hk) as (j & Hj & _).
+  destruct (i_sto_flight0 _ _ Hj) as [Hd|(t & nw & g & Et)].
+  - exact (i_done_mov0 _ _ Hd (i_sto_mov0 _ _ Hj) eq_refl).
+  - specialize (Hq t). rewrite Et in Hq. discriminate.
+Qed.
+
+(* ... and oldFile is not the current file then *)
+Theorem old_not_current_when_no_rotation_in_flight t0 s :
+  creach (c_start t0) s -> (forall t, rot_of (c_thr s t) = None) -> c_old s <> Some (c_file s).
+Proof.
+  intros Hr Hq Ho. pose proof (creach_cinv _ _ Hr) as H. destruct H.
+  destruct (i_old_by0 _ Ho) as (j & _ & Hj).
+  destruct (i_sto_flight0 _ _ Hj) as [Hd|(t & nw & g & Et)].
+  - exact (i_done_mov0 _ _ Hd (i_sto_mov0 _ _ Hj) eq_refl).
+  - specialize (Hq t). rewrite Et in Hq. discriminate.
+Qed.
+
 (* ===================== the step function is the step relation ===================== *)
 Lemma exec_sound s a s' : exec s a = Some s' -> cstep s s'.
 Proof.
-  destruct a as [d|t]; cbn [exec].
+  destruct a as [d|t|t]; cbn [exec].
   - destruct (0 <? d)%Z eqn:E; [|discriminate]. intro H; inversion H; subst. apply cs_tick. lia.
   - destruct (c_thr s t) eqn:Et.
     + intro H; inversion H; subst. now apply cs_begin.
@@ -391,6 +455,7 @@ Proof.
     + destruct (c_fopen s f) eqn:Ef; intro H; inversion H; subst.
       * eapply cs_write_ok; eassumption.
       * eapply cs_write_lost; eassumption.
+  - destruct (c_thr s t) eqn:Et; try discriminate. intro H; inversion H; subst. eapply cs_create_fail; eassumption.
 Qed.
 
 Lemma run_reach s0 l : forall s s', creach s0 s -> run s l = Some s' -> creach s0 s'.
@@ -548,6 +613,7 @@ Proof.
       * subst f. destruct Hi. exfalso.
         rewrite (a_empty s Ha (c_nfiles s)) in Hin by lia. contradiction.
       * apply (H3 f p tw); [lia|assumption].
+  - apply tinv_set_thr; [assumption|]. cbn. discriminate.
   - constructor; proj; try assumption. intros t' n. unfold updf. destruct (Nat.eqb_spec t' t); [|apply H1].
     cbn. intro E; inversion E; subst. apply (Hnow t). rewrite H. reflexivity.
   - constructor; proj; try assumption. intros t' n. unfold updf. destruct (Nat.eqb_spec t' t); [|apply H1].
@@ -640,4 +706,104 @@ Proof.
   ss. ss. rewrite Ho. ss.
   eexists. split; [reflexivity|]. cbn [c_clk c_curr c_file c_old c_nfiles c_fname c_fopen c_fdata c_thr c_seq c_lost]. rewrite ?updf_same.
   repeat split; try reflexivity. intros g Hg. apply updf_other. assumption.
+Qed.
+
+(* ===================== create faults (C19) under the interleaving semantics ===================== *)
+(* a complete Write call executed alone at a boundary whose createFile fails: the retired descriptor is closed, the current
+   file stays what it was, the write lands in it, nothing is lost, and currTime has moved on (no second attempt in this interval) *)
+Theorem solo_write_create_fails s t : c_thr s t = RIdle -> (c_curr s < c_clk s)%Z ->
+  c_fopen s (c_file s) = true -> c_old s <> Some (c_file s) ->
+  exists s', run s (steps t 4 ++ [AFail t] ++ steps t 2) = Some s' /\
+    c_file s' = c_file s /\ c_curr s' = c_clk s /\ c_clk s' = c_clk s /\ c_old s' = None /\ c_nfiles s' = c_nfiles s /\
+    c_thr s' t = RIdle /\ c_seq s' t = S (c_seq s t) /\ c_lost s' = c_lost s /\ c_fopen s' (c_file s) = true /\
+    c_fdata s' (c_file s) = c_fdata s (c_file s) ++ [((t, c_seq s t), c_clk s)] /\
+    (forall g, g <> c_file s -> c_fdata s' g = c_fdata s g).
+Proof.
+  intros Ht Hlt Hop Hold. unfold steps. cbn [repeat app]. cbn [run exec]. rewrite Ht. ss.
+  replace (c_clk s <=? c_curr s)%Z with false by (symmetry; apply Z.leb_gt; assumption).
+  ss. rewrite Z.eqb_refl. ss.
+  destruct (c_old s) as [o|] eqn:Eo.
+  - assert (Hne : c_file s <> o) by (intro; subst; apply Hold; reflexivity).
+    do 3 ss. rewrite (updf_other (c_fopen s) o false (c_file s)) by assumption. rewrite Hop. ss.
+    eexists. split; [reflexivity|]. cbn [c_clk c_curr c_file c_old c_nfiles c_fname c_fopen c_fdata c_thr c_seq c_lost]. rewrite ?updf_same.
+    repeat split; try reflexivity.
+    + rewrite updf_other by assumption. assumption.
+    + intros g Hg. apply updf_other. assumption.
+  - do 3 ss. rewrite Hop. ss.
+    eexists. split; [reflexivity|]. cbn [c_clk c_curr c_file c_old c_nfiles c_fname c_fopen c_fdata c_thr c_seq c_lost]. rewrite ?updf_same.
+    repeat split; try reflexivity.
+    + assumption.
+    + intros g Hg. apply updf_other. assumption.
+Qed.
+
+(* the necessity of reading "overlaps" as "not successfully complete": goroutine 0 rotates at the first boundary and stalls
+   between oldFile.Store and file.Store; at the second boundary goroutine 1 wins the CAS, closes oldFile - which is still the
+   current file - and its createFile fails; its own write and the next write of goroutine 2 hit the closed descriptor although
+   goroutine 0's is the only rotation in flight. *)
+Definition fault_schedule : list act :=
+  ([ATick 1] ++ steps 0 7 ++ [ATick 1] ++ steps 1 4 ++ [AFail 1] ++ steps 1 2 ++ steps 2 4)%nat.
+
+Theorem fault_loses_write_with_one_rotation_in_flight :
+  exists s, creach (c_start 0) s /\ c_lost s = [(1, 0); (2, 0)]%nat /\ c_thr s 0%nat = RStoredOld 0%nat 1%Z 1%nat /\ c_thr s 1%nat = RIdle /\ c_thr s 2%nat = RIdle /\
+            c_fopen s (c_file s) = false.
+Proof.
+  destruct (run (c_start 0) fault_schedule) as [s|] eqn:E; [|vm_compute in E; discriminate].
+  exists s. split.
+  - eapply run_reach; [apply cr_refl|exact E].
+  - vm_compute in E. inversion E. cbn. repeat split; reflexivity.
+Qed.
+
+(* after the failed attempt: no second attempt within the interval (the next call takes the plain path into the same file),
+   and the first call after the next boundary attempts the creation again - and, succeeding, rotates *)
+Theorem failed_create_then_plain_then_retry s t d : c_thr s t = RIdle -> (c_curr s < c_clk s)%Z ->
+  c_fopen s (c_file s) = true -> c_old s <> Some (c_file s) -> (0 < d)%Z ->
+  exists s1, run s (steps t 4 ++ [AFail t] ++ steps t 2) = Some s1 /\
+    (exists s2, run s1 (steps t 4) = Some s2 /\ c_file s2 = c_file s /\ c_nfiles s2 = c_nfiles s /\ c_lost s2 = c_lost s /\
+        c_fdata s2 (c_file s) = c_fdata s (c_file s) ++ [((t, c_seq s t), c_clk s)] ++ [((t, S (c_seq s t)), c_clk s)]) /\
+    (exists s3, run s1 (ATick d :: steps t 11) = Some s3 /\ c_file s3 = c_nfiles s /\ c_fname s3 (c_nfiles s) = (c_clk s + d)%Z /\
+        c_old s3 = Some (c_file s) /\ c_lost s3 = c_lost s /\ c_curr s3 = (c_clk s + d)%Z).
+Proof.
+  intros Ht Hlt Hop Hold Hd.
+  destruct (solo_write_create_fails s t Ht Hlt Hop Hold) as (s1 & Hrun & F1 & F2 & F3 & F4 & F5 & F6 & F7 & F8 & F9 & F10 & F11).
+  exists s1. split; [assumption|]. split.
+  - destruct (solo_write_plain s1 t F6) as (s2 & Hr2 & G1 & G2 & G3 & G4 & G5 & G6 & G7 & G8 & G9 & G10).
+    + rewrite F2, F3. lia.
+    + rewrite F1. assumption.
+    + exists s2. split; [assumption|]. rewrite G1, G4, G8, F1, F5, F8. repeat split; try reflexivity.
+      rewrite F1 in G9. rewrite G9, F10, F7, F3, <- app_assoc. reflexivity.
+  - cbn [run exec]. replace (0 <? d)%Z with true by (symmetry; apply Z.ltb_lt; assumption).
+    match goal with |- context [run ?x (steps t 11)] => set (s1' := x) end.
+    destruct (solo_write_rotates s1' t) as (s3 & Hr3 & G1 & G2 & G3 & G4 & G5 & G6 & G7 & G8 & G9 & G10 & _).
+    + exact F6.
+    + unfold s1'. cbn [c_curr c_clk]. rewrite F2, F3. lia.
+    + exists s3. split; [assumption|]. unfold s1' in *. cbn [c_clk c_curr c_file c_old c_nfiles c_fname c_fopen c_fdata c_thr c_seq c_lost] in *.
+      rewrite F5 in G1, G2. rewrite F1 in G3. rewrite F3 in G2, G4. rewrite F8 in G10.
+      rewrite G1, G2, G3, G10, G4. repeat split; reflexivity.
+Qed.
+
+(* ===================== write-through (C20) on the interleaving model ===================== *)
+Open Scope nat_scope.
+Lemma data_count_pos fd p n : 0 < data_count fd p n -> exists f, f < n /\ In p (map fst (fd f)).
+Proof.
+  induction n as [|n IH]; cbn [data_count]; intro H; [lia|].
+  destruct (Nat.eq_dec (cnt (map fst (fd n)) p) 0) as [E|E].
+  - destruct IH as (f & Hf & Hin); [lia|]. exists f. split; [lia|assumption].
+  - exists n. split; [lia|]. unfold cnt in E. apply (count_occ_In payload_eq_dec). lia.
+Qed.
+
+(* a Write call that has returned and did not hit a closed descriptor has its payload in a descriptor's data - the kernel's
+   copy, which is what survives SIGKILL / os.Exit; there is no state between "returned" and "in the file" *)
+Theorem returned_write_is_in_a_file t0 s t n : creach (c_start t0) s ->
+  n < c_seq s t -> ~ In (t, n) (c_lost s) -> exists f, f < c_nfiles s /\ In (t, n) (map fst (c_fdata s f)).
+Proof.
+  intros Hr Hn Hl. pose proof (every_write_exactly_once t0 s t n Hr) as H.
+  replace (n <? c_seq s t) with true in H by (symmetry; apply Nat.ltb_lt; assumption).
+  assert (cnt (c_lost s) (t, n) = 0) by (unfold cnt; apply count_occ_not_In; assumption).
+  apply data_count_pos. lia.
+Qed.
+
+(* ... and it stays there whatever happens afterwards (further calls, rotations, failed creations, the crash point) *)
+Theorem returned_write_stays s s' f p : creach s s' -> In p (map fst (c_fdata s f)) -> In p (map fst (c_fdata s' f)).
+Proof.
+  intros Hr Hin. destruct (never_truncated s s' f Hr) as [l Hl]. rewrite Hl, map_app. apply in_or_app. left. assumption.
 Qed.
